@@ -82,6 +82,13 @@ def _dyadic_vec(rng, n):
 
 def cases(rng, tier):
     reps = 4 if tier == "quick" else 40
+    # sub-normalised coefficient vectors (1-norm below one): kappa is the 1-norm all the same, never clamped
+    for init, hist in (([Fraction(1, 4), Fraction(-1, 8)], [[Fraction(1, 8), Fraction(1, 16)]]),
+                       ([Fraction(1, 4)] * 3, [[Fraction(1, 2), Fraction(-1, 4), Fraction(1, 8)], [Fraction(1, 16)] * 3]),
+                       ([Fraction(3, 2), Fraction(1, 2)], [[Fraction(1, 4), Fraction(1, 4)]])):
+        for cont in ("list", "ndarray"):
+            yield ("setter", {"nmaps": len(init), "init": [frac(x) for x in init], "hist": [[frac(x) for x in h] for h in hist], "gate": None,
+                              "container": cont, "always_oracle": True})
     for name in c02.FAMS:
         for th in gen.SPECIAL_ANGLES + [rng.uniform(-8 * math.pi, 8 * math.pi) for _ in range(reps)]:
             yield ("kappa", {"gate": name, "params": [th]})
